@@ -5614,6 +5614,26 @@ public:
             return true;
         }
 
+        if(is_flat_group<T>::value)
+        {
+            // entries of a flat group have no variable-length members so
+            // they can be validated all at once. Iterating over them instead
+            // would take time proportional to an untrusted `numInGroup`,
+            // which is not bounded by the buffer size when `blockLength` is 0
+            const std::size_t block_length = *header.blockLength();
+            const std::size_t num_in_group = g.size();
+            if(block_length && (num_in_group > (size / block_length)))
+            {
+                valid = false;
+                return true;
+            }
+
+            const auto entries_size = num_in_group * block_length;
+            validate_and_subtract(entries_size);
+            c.pointer() += entries_size;
+            return !is_valid();
+        }
+
         const auto prev_block_length =
             set_group_block_length(*header.blockLength());
         sbepp::visit_children(g, c, *this);
